@@ -18,12 +18,92 @@ Recognised shapes (anything else is an ExtractionError):
 
   replacement test of `get_nodes_on_path_with_hops`:
       if not len(result) or len(result) > len(path_node_ids):   (strict)
+
+  derived helpers of `ABCPropertyGraph` (`get_all_ns_or_link_connection_points`, `get_all_child_connection_points`,
+  `get_all_node_or_component_connection_points`, `find_peer_connection_points`):
+      labels, _ = self.get_node_properties(node_id=<param>)
+      if ABCPropertyGraph.CLASS_X not in labels [and ABCPropertyGraph.CLASS_Y not in labels ...]:
+          raise PropertyGraphQueryException(...)
+      ... self.get_first_neighbor(node_id=<param>, rel=ABCPropertyGraph.REL_r, node_label=ABCPropertyGraph.CLASS_c)
+        | self.get_first_and_second_neighbor(node_id=<param>, rel1=..., node1_label=..., rel2=..., node2_label=...)
+    reported: the admitted classes of the gate (values of the constants, read from abc_property_graph_constants.py)
+    and the relation / class constants the query is asked with.  `labels` must be the first component of
+    `get_node_properties` (a *list* of labels: `not in` is list membership).
 """
 import ast
 from .common import *
 
 PG = "fim/graph/networkx_property_graph.py"
 MX = "fim/graph/networkx_mixin.py"
+ABCPG = "fim/graph/abc_property_graph.py"
+CONSTS = "fim/graph/abc_property_graph_constants.py"
+
+
+def _constants():
+    """CLASS_* / REL_* string constants of ABCPropertyGraphConstants"""
+    tree, _ = parse(CONSTS)
+    cls = find_class(tree, "ABCPropertyGraphConstants")
+    out = {}
+    for st in cls.body:
+        if (isinstance(st, ast.Assign) and len(st.targets) == 1 and isinstance(st.targets[0], ast.Name)
+                and isinstance(st.value, ast.Constant) and isinstance(st.value.value, str)):
+            out[st.targets[0].id] = st.value.value
+    if not any(k.startswith("CLASS_") for k in out) or not any(k.startswith("REL_") for k in out):
+        raise ExtractionError("no CLASS_*/REL_* string constants in ABCPropertyGraphConstants")
+    return out
+
+
+def _const(node, consts, who):
+    # ABCPropertyGraph.CLASS_Link / self.REL_HAS / ABCPropertyGraphConstants.CLASS_Link
+    if isinstance(node, ast.Attribute) and node.attr in consts:
+        return consts[node.attr]
+    if isinstance(node, ast.Constant) and isinstance(node.value, str):
+        return node.value
+    raise ExtractionError("%s: %s is not a CLASS_*/REL_* constant" % (who, ast.unparse(node)))
+
+
+def _helper(cls, name, call_name, kws, consts, gated):
+    fn = find_func(cls, name)
+    params = [a.arg for a in fn.args.args + fn.args.kwonlyargs if a.arg != "self"]
+    if len(params) != 1:
+        raise ExtractionError("%s: expected one parameter, found %s" % (name, params))
+    par = params[0]
+    gate = None
+    if gated:
+        # labels, _ = self.get_node_properties(node_id=par)
+        lab = None
+        for n in ast.walk(fn):
+            if (isinstance(n, ast.Assign) and len(n.targets) == 1 and isinstance(n.targets[0], ast.Tuple)
+                    and len(n.targets[0].elts) == 2 and isinstance(n.targets[0].elts[0], ast.Name)
+                    and isinstance(n.value, ast.Call) and isinstance(n.value.func, ast.Attribute)
+                    and n.value.func.attr == "get_node_properties"
+                    and [(k.arg, ast.unparse(k.value)) for k in n.value.keywords] == [("node_id", par)] and not n.value.args):
+                lab = n.targets[0].elts[0].id
+        if lab is None:
+            raise ExtractionError("%s: labels are not taken from get_node_properties(node_id=%s)" % (name, par))
+        ifs = [n for n in strip_doc(fn.body) if isinstance(n, ast.If)]
+        ifs = [n for n in ifs if len(n.body) == 1 and isinstance(n.body[0], ast.Raise) and not n.orelse]
+        if len(ifs) != 1:
+            raise ExtractionError("%s: expected one class gate (if ... not in labels: raise), found %d" % (name, len(ifs)))
+        t = ifs[0].test
+        parts = t.values if isinstance(t, ast.BoolOp) and isinstance(t.op, ast.And) else [t]
+        gate = []
+        for c in parts:
+            if not (isinstance(c, ast.Compare) and len(c.ops) == 1 and isinstance(c.ops[0], ast.NotIn)
+                    and isinstance(c.comparators[0], ast.Name) and c.comparators[0].id == lab):
+                raise ExtractionError("%s: gate condition %s is not `CLASS_X not in %s`" % (name, ast.unparse(c), lab))
+            gate.append(_const(c.left, consts, name))
+        exc = ifs[0].body[0].exc
+        if not (isinstance(exc, ast.Call) and ast.unparse(exc.func) == "PropertyGraphQueryException"):
+            raise ExtractionError("%s: the gate raises %s" % (name, ast.unparse(exc) if exc else None))
+    calls = [n for n in ast.walk(fn) if isinstance(n, ast.Call) and isinstance(n.func, ast.Attribute)
+             and n.func.attr == call_name and isinstance(n.func.value, ast.Name) and n.func.value.id == "self"]
+    if len(calls) != 1 or calls[0].args:
+        raise ExtractionError("%s: expected one keyword call of self.%s" % (name, call_name))
+    kw = {k.arg: k.value for k in calls[0].keywords}
+    if sorted(kw) != sorted(["node_id"] + kws) or ast.unparse(kw["node_id"]) != par:
+        raise ExtractionError("%s: unexpected arguments of %s: %s" % (name, call_name, sorted(kw)))
+    return gate, [_const(kw[k], consts, name) for k in kws], fn
 
 
 def _is_label(node):
@@ -151,6 +231,19 @@ def generate():
     else:
         raise ExtractionError("get_nodes_on_path_with_hops: replacement test not recognised: %s" % tests)
 
+    # --- derived helpers of ABCPropertyGraph
+    atree, asrc = parse(ABCPG)
+    apg = find_class(atree, "ABCPropertyGraph")
+    consts = _constants()
+    two = ["rel1", "node1_label", "rel2", "node2_label"]
+    link_gate, link_q, h1 = _helper(apg, "get_all_ns_or_link_connection_points", "get_first_neighbor", ["rel", "node_label"], consts, True)
+    child_gate, child_q, h2 = _helper(apg, "get_all_child_connection_points", "get_first_neighbor", ["rel", "node_label"], consts, True)
+    node_gate, node_q, h3 = _helper(apg, "get_all_node_or_component_connection_points", "get_first_and_second_neighbor", two, consts, True)
+    _, peer_q, h4 = _helper(apg, "find_peer_connection_points", "get_first_and_second_neighbor", two, consts, False)
+
+    def strs(l):
+        return lean_list([lean_str(x) for x in l])
+
     def b(x):
         return "true" if x else "false"
     lean = (
@@ -166,10 +259,19 @@ def generate():
         "def dropIteratesSnapshot : Bool := %s\n\n"
         "/-- `get_nodes_on_path_with_hops` replaces the kept path only by a strictly shorter one. -/\n"
         "def hopsReplaceStrict : Bool := %s\n" % (b(first_ok), b(hop1_ok), b(hop2_ok), b(snapshot), b(strict)))
+    lean += (
+        "\n/-! derived helpers of `ABCPropertyGraph`: admitted classes of the node (`CLASS_X not in labels ... raise`) and the\n"
+        "    relation / class names (values of the `REL_*` / `CLASS_*` constants) the underlying query is asked with -/\n\n"
+        "def linkCpsGate : List String := %s\ndef linkCpsQuery : List String := %s\n"
+        "def childCpsGate : List String := %s\ndef childCpsQuery : List String := %s\n"
+        "def nodeCpsGate : List String := %s\ndef nodeCpsQuery : List String := %s\n"
+        "def peerQuery : List String := %s\n"
+        % (strs(link_gate), strs(link_q), strs(child_gate), strs(child_q), strs(node_gate), strs(node_q), strs(peer_q)))
     emit("QueryIdioms", lean)
     return {"first_via": l1[0], "hop1": l2[0], "hop2": l2[1], "hop2_outer_var": outer.target.id,
             "drop_iter": ast.unparse(it), "snapshot": snapshot, "hops_replace_strict": strict,
             "flags": {"firstViaDropsNeighbour": first_ok, "hop1DropsNeighbour": hop1_ok,
                       "hop2DropsNeighbour": hop2_ok, "dropIteratesSnapshot": snapshot, "hopsReplaceStrict": strict},
+            "helpers": {"linkcps": [link_gate, link_q], "childcps": [child_gate, child_q], "nodecps": [node_gate, node_q], "peer": [None, peer_q]},
             "span_hashes": {"_get_first_neighbors_via": span_hash(msrc, f1), "get_first_and_second_neighbor": span_hash(psrc, f2),
                             "_drop_edges_not_of_type": span_hash(msrc, f3), "get_nodes_on_path_with_hops": span_hash(psrc, f4)}}
